@@ -372,6 +372,10 @@ func (src *BatchRelease) ConvertTo(dst conversion.Hub) error {
 		if strings.EqualFold(src.Annotations[RolloutStyleAnnotation], string(BlueGreenRollingStyle)) {
 			obj.Spec.ReleasePlan.RollingStyle = v1beta1.BlueGreenRollingStyle
 		}
+		// the annotation takes precedence; without it keep what spec.releasePlan.rollingStyle says
+		if obj.Spec.ReleasePlan.RollingStyle == "" {
+			obj.Spec.ReleasePlan.RollingStyle = v1beta1.RollingStyleType(srcSpec.ReleasePlan.RollingStyle)
+		}
 
 		obj.Spec.ReleasePlan.EnableExtraWorkloadForCanary = srcSpec.ReleasePlan.EnableExtraWorkloadForCanary
 
